@@ -39,6 +39,10 @@ SEGS = ["im", "sub", "deep", "_p", "__d", "nope"]
 EXC_CLASSES = ["ValueError", "KeyError", "IndexError", "ZeroDivisionError", "RuntimeError", "OSError", "AttributeError", "LookupError",
                "ArithmeticError", "AssertionError", "NotImplementedError", "NameError", "OverflowError", "StopIteration",
                "UnicodeError", "EOFError", "Exception", "CustomError"]
+# exceptions that do not derive from Exception (sys.exit() in a method, ...): "any other exception raised by the method" covers
+# them for registered functions and instance methods (the library contains them with a bare `except:`); for a dispatch FUNCTION
+# the library deliberately lets them through (`except Exception`), which is read as outside "raised by the method"
+BASE_EXC_CLASSES = ["SystemExit", "KeyboardInterrupt", "MethodAborted"]
 TEXTS = ["boom-17", "msg with spaces & \"quotes\"", "ünï-текст"]
 
 
@@ -282,9 +286,11 @@ class Exceptions(Base):
 
     def gen(self, tier, rng):
         cases = []
-        for cls, text, path in itertools.product(EXC_CLASSES, TEXTS, ["function", "instance", "custom", "instance-dispatch"]):
+        for cls, text, path in itertools.product(EXC_CLASSES + BASE_EXC_CLASSES, TEXTS, ["function", "instance", "custom", "instance-dispatch"]):
             if cls == "AttributeError" and path == "instance-dispatch":
                 continue       # a declining _dispatch is the fallback protocol, not a failure
+            if cls in BASE_EXC_CLASSES and path in ("custom", "instance-dispatch"):
+                continue
             c = GN.base_case(rng.choice([1.0, 2.0]), "default")
             role = "dispatch" if path in ("custom", "instance-dispatch") else None
             d = {"sig": K.ANY_SIG, "beh": ["raise", cls, text]}
@@ -402,5 +408,31 @@ class TypeErrorInBody(Base):
         return "TypeError in body / %s" % case["kind"]
 
 
+from harness.props import c01 as C01     # noqa: E402
+
+
+class Registry(C01.Registry):
+    """the -32601 clause over the life of one server: a name that was served and then stops existing (the instance replaced by one
+    without it, the attribute deleted) is an unknown method again -- -32601, surfaced as ProtocolError(-32601), nothing invoked.
+    Same histories and same model function as C01's `registry` stream (one Dispatch.v case per call, under the registry of its moment)."""
+
+    def oracle(self, case, obs):
+        for i, c in enumerate(obs["calls"]):
+            if C01.resolve(c["funcs"], c["tree"], c["name"]) is not None:
+                continue
+            where = "call %d of %r, unknown under the registrations in force (functions %r, instance attributes %r)" % (
+                i, c["name"], sorted(c["funcs"]), None if c["tree"] is None else sorted(c["tree"]))
+            ran = [e for e in c["log"] if e[0] == "call"]
+            if ran:
+                return ("C05:rejected-request-ran-callable", "%s: callables %r ran" % (where, [e[1] for e in ran]))
+            d = c.get("detail")
+            if c["out"] != ("exn", "ProtocolError") or not (isinstance(d, tuple) and d and d[0] == -32601):
+                return ("C05:wrong-error-code", "%s: the client got %r %r instead of ProtocolError(-32601)" % (where, c["out"], d))
+        return None
+
+    def nontrivial(self, case, obs):
+        return any(C01.resolve(c["funcs"], c["tree"], c["name"]) is None for c in obs["calls"])
+
+
 def streams():
-    return [Names(), Arity(), Exceptions(), Malformed(), TypeErrorInBody()]
+    return [Names(), Arity(), Exceptions(), Malformed(), TypeErrorInBody(), Registry()]
